@@ -3375,7 +3375,14 @@ impl SctpInner {
             }
             let flight = self.flight_size.load(Ordering::Relaxed);
             let queued = self.queued_bytes.load(Ordering::Relaxed);
-            if self.max_buffered_amount == 0 || flight + queued <= self.max_buffered_amount {
+            // DCEP control messages are exempt from the send-buffer gate: they are
+            // tiny, and the ACK answering a peer's OPEN is sent from the association's
+            // own run loop - the only task that processes the SACKs which release
+            // credit - so making it wait here would deadlock the association.
+            if self.max_buffered_amount == 0
+                || is_dcep
+                || flight + queued <= self.max_buffered_amount
+            {
                 break;
             }
             self.flow_control_notify.notified().await;
